@@ -51,7 +51,8 @@ ASSUMPTIONS = [
     "inf/nan and literals overflowing to infinity are unjudged",
     "ipaddr-or-hostname: host-name grammar as in DESIGN.md (letter or '_', "
     "then letters/digits/'-'/'_'/'.', not ending in '.'); one-character "
-    "names, octets with leading zeros and non-ASCII letters are unjudged; "
+    "names and octets with leading zeros are unjudged; anything that is "
+    "not ASCII is refused (host names are ASCII); "
     "IPv6 validity is RFC 4291 section 2.2 decided by a hand-written parser",
     "inet/socket address types: white space, the empty string, brackets "
     "outside the [addr]:port form and a bare out-of-range number are "
